@@ -171,6 +171,9 @@ func init() {
 			for _, s := range gen.ScopeExit() {
 				do(s)
 			}
+			for _, s := range gen.ChildAsField() {
+				do(s)
+			}
 			// shadowing to depth 8 and name reuse between variables and fields
 			for d := 1; d <= 8; d++ {
 				src := "var x = 0; "
@@ -222,10 +225,13 @@ func init() {
 			for _, s := range gen.KeywordIdents() {
 				do(s)
 			}
+			for _, s := range gen.ChildAsField() {
+				do(s)
+			}
 		},
 		quickLen: 5, thorLen: 6, maxNest: 3, budgetQ: 100, budgetT: 1500,
 		mustSee:     []string{"accepted-ok", "accepted-rterr:dupchild", "accepted-rterr:divzero", "accepted-rterr:unresolved"},
-		assumptions: []string{"reading a closed child through its key and assigning a field under a closed child's key are left open by the documentation and excluded"},
+		assumptions: []string{"a closed child block is read through its key like any field; printing it, its truth value, operators on it, and assigning a field under a closed child's key are left open by the documentation and excluded"},
 	})
 
 	// C04 — the bind statement selects exactly the designated blocks
